@@ -74,7 +74,8 @@ void model_selftest(vh::Case& c) {
       {2, 3, {0, 9, 9, 5, 9, 1}, {{0, 1, 9}}, 0},
       {3, 4, {0, 0, 0, 0, 0, 3, 0, 0, 0, 0, 0, 0}, {{1, 0, 3}}, 0},
       {3, 5, {0, 0, 0, 0, 0, 0, 2, 0, 4, 0, 0, 0, 0, 0, 0}, {{1, 0, 2}, {1, 0, 4}}, 0},  // two holes
-      {3, 3, {1, 0, 1, 0, 1, 0, 1, 0, 1}, {}, 0},                               // diagonal contacts are connected (shared vertex)
+      {3, 3, {1, 0, 1, 0, 1, 0, 1, 0, 1}, {{1, 0, 1}}, 0},                      // diagonal contacts are connected (shared vertex): a ring
+      {3, 3, {0, 5, 5, 5, 0, 5, 5, 5, 5}, {}, 0},                               // two diagonal minima are one component from the start
   };
   for (auto& t : tests) {
     Expected E = expected_of(t.r, t.cN, t.v);
